@@ -59,6 +59,20 @@ def seq_part(ctx, pid, doc):
     finish = sum(r.get("finish_runs", 0) for r in doc["runs"])
     exhaustive = all(r["fixpoint"] and not r["cap_hit"] for r in doc["runs"])
     viols = []
+    if doc.get("hang"):
+        h = doc["hang"]
+        if h["attributed_to"] != pid:
+            ctx.machinery("exploration for %s stopped: %s in %s after history %s (this hang is reported as a violation by ./check %s)" % (pid, h["message"], h["config"], " ".join(h["history"]), h["attributed_to"]))
+        viols.append({
+            "engine": doc.get("engine", "E-SEQ"), "property": pid, "config": h["config_json"], "history": h["history"], "clause": "hang",
+            "message": h["message"], "occurrences": 1,
+            "signature": "%s|hang|%s" % (h["config_json"]["system"], " ".join(h["history"])),
+            "summary": "%s: %s after %s" % (h["config"], h["message"], " ".join(h["history"])),
+        })
+        cov = {"states": 1, "transitions": 1, "traces_validated_against_impl": 1, "exhaustive": False, "samples": [{"history": h["history"]}],
+               "configurations": [], "distinct_outcomes": 0, "truncated_by_corruption": 0, "liveness_closure_runs": 0,
+               "note": "exploration aborted by the hang watchdog"}
+        return cov, viols
     for r in doc["runs"]:
         for v in r["violations"]:
             if not v["deterministic"]:
@@ -96,10 +110,72 @@ def seq_part(ctx, pid, doc):
     return cov, viols
 
 
-def seq_property(note=None, extra_assumptions=()):
+def valgrind_part(ctx, pid, tier_name):
+    """The same explicit-state search on small configurations under valgrind, with dropped futures
+    really freed: any access of the library to a dropped future's memory is an invalid read/write."""
+    out = os.path.join(ctx.out, "%s.%s.valgrind.json" % (pid, ctx.tier))
+    trace = os.path.join(ctx.out, "%s.%s.valgrind.trace" % (pid, ctx.tier))
+    for f in (out, trace):
+        if os.path.exists(f):
+            os.remove(f)
+    exe = os.path.join(ctx.root, "target", "release", "fiverif")
+    cmd = ["valgrind", "-q", "--error-exitcode=9", "--exit-on-first-error=yes", "--num-callers=12", exe, "run", "--prop", pid, "--tier", tier_name,
+           "--threads", "1", "--free-on-drop", "--hang-secs", "100000", "--trace-file", trace, "--out", out]
+    p, wall = ctx.run_engine(cmd, ctx.timeout(), "valgrind fiverif (%s)" % tier_name)
+    if p.returncode == 9:
+        last = ""
+        with open(trace) as f:
+            for line in f:
+                if line.strip():
+                    last = line
+        rec = json.loads(last)
+        msg = " / ".join(l.split("==")[-1].strip() for l in (p.stderr or "").splitlines()[:6] if "==" in l)[:600]
+        v = {"engine": "E-SEQ", "property": pid, "config": rec["config"], "history": rec["history"], "clause": "valgrind-invalid-access",
+             "message": "valgrind reported an invalid memory access inside a library call (dropped futures are freed): " + msg, "valgrind": True,
+             "signature": "%s|valgrind|%s" % (rec["config"]["system"], " ".join(rec["history"])),
+             "summary": "valgrind: invalid access after %s in %s: %s" % (" ".join(rec["history"]), rec["config"]["system"], msg[:200])}
+        return {"valgrind_transitions": None, "valgrind_errors": 1, "wall_s": round(wall, 1)}, [v]
+    if p.returncode != 0 or not os.path.exists(out):
+        ctx.machinery("valgrind run exited with status %s:\n%s" % (p.returncode, "\n".join((p.stderr or "").splitlines()[-25:])))
+    with open(out) as f:
+        doc = json.load(f)
+    cov, viols = seq_part(ctx, pid, doc)
+    return {"valgrind_states": cov["states"], "valgrind_transitions": cov["transitions"], "valgrind_errors": 0, "valgrind_exhaustive": cov["exhaustive"],
+            "configurations": [c["config"] for c in cov["configurations"]], "wall_s": round(wall, 1)}, viols
+
+
+def miri_part(ctx, pid):
+    """Reduced-bound E-DS enumeration executed by Miri (use-after-free, out-of-bounds, uninitialised reads, invalid drops)."""
+    out = os.path.join(ctx.out, "%s.miri.json" % pid)
+    if os.path.exists(out):
+        os.remove(out)
+    env = dict(ctx.env, MIRIFLAGS="-Zmiri-disable-isolation -Zmiri-disable-stacked-borrows -Zmiri-ignore-leaks", CARGO_TARGET_DIR=os.path.join(ctx.root, "target", "miri"))
+    cmd = ["cargo", "+nightly", "miri", "run", "--offline", "-q", "-p", "fiverif", "--bin", "fiverif", "--", "run", "--prop", pid, "--tier", "miri", "--threads", "1",
+           "--hang-secs", "100000", "--out", out]
+    p, wall = ctx.run_engine(cmd, ctx.timeout(), "miri fiverif", env=env)
+    err = p.stderr or ""
+    if "Undefined Behavior" in err or "error: unsupported operation" in err and False:
+        lines = err.splitlines()
+        i = next(k for k, l in enumerate(lines) if "Undefined Behavior" in l)
+        v = {"engine": "E-DS", "property": pid, "clause": "miri-undefined-behaviour", "message": "Miri: " + " ".join(lines[i:i + 3])[:500], "miri": True,
+             "signature": "miri|%s|%s" % (pid, lines[i][:100]), "summary": "Miri reported undefined behaviour: " + lines[i][:300]}
+        return {"miri_ub": 1, "wall_s": round(wall, 1)}, [v]
+    if p.returncode != 0 or not os.path.exists(out):
+        ctx.machinery("miri run exited with status %s:\n%s" % (p.returncode, "\n".join(err.splitlines()[-25:])))
+    with open(out) as f:
+        doc = json.load(f)
+    cov, viols = seq_part(ctx, pid, doc)
+    return {"miri_states": cov["states"], "miri_transitions": cov["transitions"], "miri_ub": 0, "configurations": [c["config"] for c in cov["configurations"]], "wall_s": round(wall, 1)}, viols
+
+
+def seq_property(note=None, extra_assumptions=(), miri=False):
     def f(ctx, pid):
         doc, wall = run_seq(ctx, pid)
         cov, viols = seq_part(ctx, pid, doc)
+        if miri and ctx.tier == "thorough" and not viols:
+            mcov, mviols = miri_part(ctx, pid)
+            cov["miri"] = mcov
+            viols += mviols
         cov["summary"] = "states=%d transitions=%d exhaustive=%s" % (cov["states"], cov["transitions"], cov["exhaustive"])
         cov["explanation"] = note or ""
         ev = {"level": "model_checking", "coverage": cov, "assumptions": ASSUME_SEQ + list(extra_assumptions)}
@@ -191,10 +267,14 @@ def loom_part(ctx, pid):
     return cov, viols
 
 
-def seq_loom_property(note=None):
+def seq_loom_property(note=None, valgrind=False):
     def f(ctx, pid):
         doc, wall = run_seq(ctx, pid)
         cov, viols = seq_part(ctx, pid, doc)
+        if valgrind and not viols:
+            vcov, vviols = valgrind_part(ctx, pid, "valgrind" if ctx.tier == "quick" else "valgrind-big")
+            cov["valgrind"] = vcov
+            viols += vviols
         lcov, lviols = loom_part(ctx, pid)
         cov["loom"] = lcov
         cov["traces_validated_against_impl"] += lcov["schedules"]
@@ -260,6 +340,12 @@ def do_replay(root, env, path, run_engine):
     eng = doc.get("engine", "E-SEQ")
     if eng in ("E-SEQ", "E-DS"):
         exe = os.path.join(root, "target", "release", "fiverif")
+        if doc.get("valgrind"):
+            p = subprocess.run(["valgrind", "-q", "--error-exitcode=9", "--exit-on-first-error=yes", exe, "replay", "--file", path, "--free-on-drop", "--hang-secs", "100000"], cwd=root, env=env)
+            if p.returncode == 9:
+                print("replay: valgrind reports the invalid access again")
+                return 1
+            return p.returncode
         p = subprocess.run([exe, "replay", "--file", path], cwd=root, env=env)
         return p.returncode
     if eng == "E-LOOM":
@@ -293,7 +379,7 @@ def do_replay(root, env, path, run_engine):
 
 
 PROPS = {
-    "C01": seq_loom_property(),
+    "C01": seq_loom_property(valgrind=True),
     "C02": seq_loom_property(),
     "C03": seq_loom_property(),
     "C04": seq_property(),
@@ -311,6 +397,6 @@ PROPS = {
     "C16": type_property,
     "C17": seq_property(),
     "C18": seq_property(),
-    "C19": seq_property(),
-    "C20": seq_property(),
+    "C19": seq_property(miri=True),
+    "C20": seq_property(miri=True),
 }
